@@ -24,6 +24,17 @@
 (* answered with page t+1, a request without token with page 1.  A client    *)
 (* that sends a wrong token therefore gets a wrong page.                     *)
 (*                                                                           *)
+(* A second consumer is the documented callback-chained pattern              *)
+(* (docs/query_paging.rst, PagedResultHandler): future.add_callbacks(handle_ *)
+(* page, ..) where handle_page(rows) consumes the page and, if               *)
+(* future.has_more_pages, calls future.start_fetching_next_page().  Here the *)
+(* node's answer is a step of its own (Deliver): the callback runs on the    *)
+(* loop thread inside the completion of that page (_set_result ->            *)
+(* _set_final_result -> callbacks) and sends the next request from there.    *)
+(*   ResponseFuture.add_callbacks / add_callback              (AddCallback)  *)
+(*   ResponseFuture._set_result ROWS -> _set_final_result     (Deliver)      *)
+(*   the user callback, has_more_pages, start_fetching_next_page (CbRun)     *)
+(*                                                                           *)
 (* Threads.  The consumer is one application thread; every page fetch blocks *)
 (* in ResponseFuture.result() until the loop thread has run _set_result, so  *)
 (* request, answer and ResultSet update are one step of this module.         *)
@@ -43,9 +54,12 @@ VARIABLES layout,   \* Seq(0..MaxRows): rows per page (environment, fixed at Ini
           mode,     \* "paged" | "list"   (ResultSet._list_mode)
           lh,       \* the plain list iterator iter(rs) hands out in list mode (held by the consumer)
           yielded,  \* rows handed to the consumer by next() since the last iter(rs)
+          cb,       \* callback consumer: [st: "off" | "sent" (execute_async done) | "on" (callback registered),
+                    \*   owed: the node owes the answer to the last request, rows: rows handed to the callback,
+                    \*   calls: invocations of the callback, done: the callback saw has_more_pages = False]
           seg,      \* ghost: [on, start, clean, done] of that iteration (see Contiguous); lstart: where list mode began
           act       \* last action [name, arg, out]
-vars == <<layout, started, reqs, served, ps, cur, it, mode, lh, yielded, seg, act>>
+vars == <<layout, started, reqs, served, ps, cur, it, mode, lh, yielded, cb, seg, act>>
 
 -----------------------------------------------------------------------------
 NPages == Len(layout)
@@ -110,6 +124,7 @@ InitWith(lay) ==
     /\ reqs = <<>> /\ served = <<>> /\ ps = 0
     /\ cur = <<>> /\ it = NoIter /\ mode = "paged" /\ lh = NoIter
     /\ yielded = <<>>
+    /\ cb = [st |-> "off", owed |-> FALSE, rows |-> <<>>, calls |-> 0, done |-> FALSE]
     /\ seg = [on |-> FALSE, start |-> 0, clean |-> TRUE, done |-> FALSE, lstart |-> -1]
     /\ act = A("Init", 0, <<>>)
 
@@ -117,11 +132,11 @@ Init == \E lay \in Layouts : InitWith(lay)
 
 (* session.execute_async(SimpleStatement(q, fetch_size=..)); future.result() *)
 Execute ==
-    /\ ~started
+    /\ ~started /\ cb.st = "off"
     /\ started' = TRUE
     /\ Set(FetchPage(Client))
     /\ act' = A("Execute", 0, <<>>)
-    /\ UNCHANGED <<layout, lh, yielded, seg>>
+    /\ UNCHANGED <<layout, lh, yielded, cb, seg>>
 
 (* h = iter(rs) *)
 Iter ==
@@ -134,7 +149,7 @@ Iter ==
     /\ yielded' = <<>>
     /\ seg' = [seg EXCEPT !.on = TRUE, !.start = CurStart, !.clean = TRUE, !.done = FALSE]
     /\ act' = A("Iter", 0, <<>>)
-    /\ UNCHANGED <<layout, started>>
+    /\ UNCHANGED <<layout, started, cb>>
 
 (* next(h) on the iterator obtained by the last iter(rs) *)
 Next_ ==
@@ -154,7 +169,7 @@ Next_ ==
                /\ seg' = [seg EXCEPT !.done = (r.out = <<>>)]
                /\ act' = A("Next", 0, r.out)
             /\ UNCHANGED lh
-    /\ UNCHANGED <<layout, started>>
+    /\ UNCHANGED <<layout, started, cb>>
 
 (* rs.fetch_next_page() called by the application (manual paging) *)
 Fetch ==
@@ -163,7 +178,7 @@ Fetch ==
     /\ Set(FetchNext(Client))
     /\ seg' = [seg EXCEPT !.clean = FALSE]                   \* mixing manual fetches into a running iteration
     /\ act' = A("Fetch", 0, <<>>)
-    /\ UNCHANGED <<layout, started, lh, yielded>>
+    /\ UNCHANGED <<layout, started, lh, yielded, cb>>
 
 (* list(rs) / rs.all(): a new iteration run to its end in one go *)
 List ==
@@ -176,7 +191,7 @@ List ==
             /\ yielded' = d.out
             /\ act' = A("List", 0, d.out)
             /\ seg' = [seg EXCEPT !.on = TRUE, !.start = CurStart, !.clean = TRUE, !.done = TRUE]
-    /\ UNCHANGED <<layout, started, lh>>
+    /\ UNCHANGED <<layout, started, lh, cb>>
 
 (* rs[i] (op = "index") / rs == AllRows (op = "eq"): _enter_list_mode, then a read of the materialized list *)
 ListMode(op, i) ==
@@ -192,10 +207,56 @@ ListMode(op, i) ==
               ELSE IF i < Len(cur') THEN A(op, i, <<cur'[i + 1]>>)
               ELSE A(op, i, <<-2>>)                                                \* -2: IndexError
     /\ seg' = IF mode' = "list" /\ mode = "paged" THEN [seg EXCEPT !.lstart = CurStart] ELSE seg
-    /\ UNCHANGED <<layout, started, lh, yielded>>
+    /\ UNCHANGED <<layout, started, lh, yielded, cb>>
+
+-----------------------------------------------------------------------------
+(* The callback-chained consumer.                                                                        *)
+
+(* the user callback handle_page(rows): consume; if future.has_more_pages: future.start_fetching_next_page() *)
+(* k = the paging state the future shows when the callback runs                                             *)
+CbRun(c, rows, k) ==
+    [c EXCEPT !.rows = @ \o rows, !.calls = @ + 1, !.owed = (k # 0), !.done = (k = 0)]
+
+(* future = session.execute_async(statement): the first request goes out, the node has not answered yet *)
+ExecAsync ==
+    /\ ~started /\ cb.st = "off"
+    /\ reqs' = Append(reqs, 0)
+    /\ cb' = [cb EXCEPT !.st = "sent", !.owed = TRUE]
+    /\ act' = A("ExecAsync", 0, <<>>)
+    /\ UNCHANGED <<layout, started, served, ps, cur, it, mode, lh, yielded, seg>>
+
+(* future.add_callbacks(handle_page, handle_error): before the first page arrived, or after (then it runs at once) *)
+AddCallback ==
+    /\ cb.st = "sent"
+    /\ IF cb.owed
+       THEN /\ cb' = [cb EXCEPT !.st = "on"]
+            /\ UNCHANGED reqs
+       ELSE /\ cb' = CbRun([cb EXCEPT !.st = "on"], cur, ps)
+            /\ reqs' = IF ps # 0 THEN Append(reqs, ps) ELSE reqs
+    /\ act' = A("AddCallback", 0, <<>>)
+    /\ UNCHANGED <<layout, started, served, ps, cur, it, mode, lh, yielded, seg>>
+
+(* the node answers the outstanding request with the page its token designates; loop thread: _set_result stores the *)
+(* new paging state, _set_final_result completes the future and runs the registered callback                        *)
+Deliver ==
+    /\ cb.owed
+    /\ LET p == reqs[Len(reqs)] + 1 IN
+       /\ served' = Append(served, p)
+       /\ ps' = Tok(p)
+       /\ cur' = PageRows(p)                                   \* the future's result: this page's rows
+       /\ IF cb.st = "on"
+          THEN /\ cb' = CbRun(cb, PageRows(p), Tok(p))
+               /\ reqs' = IF Tok(p) # 0 THEN Append(reqs, Tok(p)) ELSE reqs
+          ELSE /\ cb' = [cb EXCEPT !.owed = FALSE]
+               /\ UNCHANGED reqs
+    /\ act' = A("Deliver", 0, <<>>)
+    /\ UNCHANGED <<layout, started, it, mode, lh, yielded, seg>>
 
 Next ==
     \/ Execute
+    \/ ExecAsync
+    \/ AddCallback
+    \/ Deliver
     \/ Iter
     \/ Next_
     \/ Fetch
@@ -215,7 +276,8 @@ One     == IF cur = <<>> THEN <<>> ELSE <<cur[1]>>                  \* one()
 TypeOK ==
     /\ mode \in {"paged", "list"}
     /\ ps \in 0..MaxPages
-    /\ Len(reqs) = Len(served)
+    /\ Len(reqs) = Len(served) + (IF cb.owed THEN 1 ELSE 0)
+    /\ cb.st \in {"off", "sent", "on"}
 
 \* each page request carries the paging state returned with the previous page
 TokenChain ==
@@ -228,8 +290,8 @@ ServedInOrder == \A i \in 1..Len(served) : served[i] = i
 \* no further page is requested once a page arrived without paging state
 NoRequestAfterLast ==
     /\ Len(reqs) <= NPages
-    /\ (started /\ ps = 0) <=> (started /\ Len(served) = NPages)
-StopsAfterLast == [][(started /\ ps = 0) => reqs' = reqs]_vars
+    /\ (Len(served) >= 1 /\ ps = 0) <=> (Len(served) = NPages)
+StopsAfterLast == [][(Len(served) >= 1 /\ ps = 0) => reqs' = reqs]_vars
 
 \* manual paging: what current_rows shows is exactly the page just fetched (or nothing after the end)
 CurIsPage == (started /\ mode = "paged" /\ cur # <<>>) => cur = PageRows(served[Len(served)])
@@ -253,10 +315,23 @@ ListAgrees ==
                      /\ Len(served) = NPages
                      /\ ~it.set
 
+\* the callback is handed the pages one by one, in server order, each once; it stops at the token-less page
+RECURSIVE RowsUpTo(_)
+RowsUpTo(p) == IF p = 0 THEN <<>> ELSE RowsUpTo(p - 1) \o PageRows(p)
+CallbackPages ==
+    /\ cb.st # "on" => (cb.calls = 0 /\ cb.rows = <<>> /\ ~cb.done)
+    /\ cb.st = "on" => /\ cb.calls = Len(served)
+                       /\ cb.rows = RowsUpTo(Len(served))
+                       /\ cb.done <=> (Len(served) = NPages)
+                       /\ cb.done => (cb.rows = AllRows /\ ~cb.owed)
+                       /\ (~cb.done /\ Len(served) >= 1) => cb.owed
+
 \* vacuity witnesses (each must be violated = reachable)
 Witness_EmptyMiddlePage == ~(NPages >= 3 /\ layout[2] = 0 /\ seg.on /\ seg.clean /\ seg.done /\ seg.start = 0 /\ Len(yielded) >= 2)
 Witness_ListAfterPartialIter == ~(act.name = "List" /\ mode = "paged" /\ seg.start > 0 /\ Len(yielded) > 0)
 Witness_ListModeFourPages == ~(mode = "list" /\ NPages = MaxPages /\ Len(cur) >= 3)
 Witness_RuntimeError == ~(act.out = <<-1>>)
+Witness_CallbackEarly == ~(cb.done /\ NPages = MaxPages /\ Len(cb.rows) >= 2 /\ layout[2] = 0)
+Witness_CallbackLate == ~(act.name = "AddCallback" /\ cb.calls = 1 /\ cb.owed)
 Witness_ManualToEnd == ~(act.name = "Fetch" /\ ps = 0 /\ Len(served) = MaxPages /\ ~it.set)
 =============================================================================
